@@ -28,6 +28,8 @@ type RoutineContainer struct {
 	routine *runningRoutine
 	// retryBo is the retry backoff if retrying is enabled.
 	retryBo cbackoff.BackOff
+	// removedExitedCh is the exited channel of a removed routine that may still be returning
+	removedExitedCh <-chan struct{}
 }
 
 // NewRoutineContainer constructs a new RoutineContainer.
@@ -172,15 +174,27 @@ func (k *RoutineContainer) setRoutineLocked(routine Routine, broadcast func()) (
 		k.routine = nil
 	}
 
+	// the next instance must wait for the last one, also if its routine was removed earlier
+	waitCh := prevExitedCh
+	if waitCh == nil {
+		waitCh = k.removedExitedCh
+	}
+	k.removedExitedCh = nil
+
 	if routine != nil {
 		r := newRunningRoutine(k, routine)
 		k.routine = r
 		if k.ctx != nil {
-			k.routine.start(k.ctx, prevExitedCh, false)
+			k.routine.start(k.ctx, waitCh, false)
+		} else {
+			r.exitedCh = waitCh
 		}
 		broadcast()
-	} else if wasReset {
-		broadcast()
+	} else {
+		k.removedExitedCh = waitCh
+		if wasReset {
+			broadcast()
+		}
 	}
 
 	return prevExitedCh, wasReset
